@@ -86,7 +86,7 @@ def _c14_miri(tier, seed, outdir, harness, target):
              ("p256", 1 + 8 * 2), ("p256", 1 + 8 * 17), ("secp256k1-tr", 1 + 8 * 5), ("ristretto255", 1 + 8 * 18), ("ed448", 1 + 8 * 3),
              ("ed25519", 1 + 8 * 24), ("secp256k1", 1 + 8 * 24 + 6 * 2)]
     env = dict(os.environ)
-    env.update({"MIRIFLAGS": "-Zmiri-disable-isolation", "FV_TINY": "900", "CARGO_TARGET_DIR": os.path.join(target, "miri"), "CARGO_NET_OFFLINE": "true"})
+    env.update({"MIRIFLAGS": "-Zmiri-disable-isolation", "FV_TINY": "480", "CARGO_TARGET_DIR": os.path.join(target, "miri"), "CARGO_NET_OFFLINE": "true"})
     mdir = os.path.join(outdir, "miri")
     os.makedirs(mdir, exist_ok=True)
     b = subprocess.run(["cargo", "+nightly", "miri", "build", "--offline", "--bin", "fv"], cwd=harness, env=env, stdout=subprocess.PIPE, stderr=subprocess.STDOUT, text=True)
@@ -104,7 +104,7 @@ def _c14_miri(tier, seed, outdir, harness, target):
     viols, stats = [], {"clean": 0, "ub": 0, "other": [], "decodes": 0}
     for suite, item, p, log in procs:
         try:
-            rc = p.wait(timeout=max(60, 2400 - (time.time() - t0)))
+            rc = p.wait(timeout=max(60, 1200 - (time.time() - t0)))
         except subprocess.TimeoutExpired:
             p.kill()
             rc = None
